@@ -57,6 +57,33 @@ func genC18(c *Ctx) {
 			}
 		}
 	}
+	// asynchronous stages of the reusable subset (Map with the concurrent option, Buffered around it): histories in which
+	// the next materialisation starts right after the previous terminal returned (goroutines of the previous one may
+	// still be winding down)
+	asyncReusable := []string{
+		"cmap 2 add:1 src 0 1,2,3,4",
+		"cmap 1 mul:2 src 0 1,2,3",
+		"cmap 3 add:1 lc 1 src 0 1,2,3,4,5,6",
+		"buffered 2 cmap 2 add:1 src 0 1,2,3,4",
+		"map add:1 cmap 2 mul:2 concat 2 src 0 1,2 src 1 3,4",
+		"buffered 3 lc 1 src 0 1,2,3,4,5",
+	}
+	asyncEndings := []string{"collect all nofault", "collect take:1 nofault", "collect take:2 nofault", "user all err@2", "collect all cancel@3"}
+	for _, p := range asyncReusable {
+		for _, e1 := range asyncEndings {
+			for _, e2 := range asyncEndings {
+				c.Case(true, "ASYNC "+strings.Join([]string{p, e1, e2, "collect take:1 nofault", "collect take:1 nofault", "collect all nofault"}, " || "))
+				c.Case(true, "ASYNC "+strings.Join([]string{p, e1 + " nw", e2 + " nw", "collect take:1 nofault nw", "collect take:1 nofault nw", "collect all nofault"}, " || "))
+			}
+		}
+		// many quick early stops in a row
+		runs := []string{p}
+		for i := 0; i < 40; i++ {
+			runs = append(runs, "collect take:1 nofault nw")
+		}
+		runs = append(runs, "collect all nofault")
+		c.Case(true, "ASYNC "+strings.Join(runs, " || "))
+	}
 	for pi, p := range pipes {
 		nCalls := callsOf(p + " || collect all nofault")
 		endings := []string{"collect all nofault", "collect take:1 nofault", "collect take:2 nofault", "collect take:0 nofault"}
